@@ -126,15 +126,56 @@ func (j *job) run(ctx *vrun.Ctx, st *stats) error {
 	case "check":
 		return nil
 	case "graph":
-		paths, covered := res.Graph.CoverPaths(ctx.Rand(j.name), j.maxPaths, 0)
+		// a path cover of every edge; quick tiers replay a seeded sample of
+		// it, stratified by scenario (initial state) so that the small
+		// scenarios (v1 fallbacks) are always present
+		rng := ctx.Rand(j.name)
+		paths, covered := res.Graph.CoverPaths(rng, 0, 0)
+		if covered != res.Graph.Edges {
+			return fmt.Errorf("%s: path cover incomplete: %d of %d edges", j.name, covered, res.Graph.Edges)
+		}
+		if j.maxPaths > 0 && len(paths) > j.maxPaths {
+			groups := map[string][][]tlc.Step{}
+			var order []string
+			for _, p := range paths {
+				if len(p) == 0 {
+					continue
+				}
+				id := p[0].From.ID
+				if _, ok := groups[id]; !ok {
+					order = append(order, id)
+				}
+				groups[id] = append(groups[id], p)
+			}
+			sort.Strings(order)
+			quota := j.maxPaths / len(order)
+			if quota < 1 {
+				quota = 1
+			}
+			var sel [][]tlc.Step
+			for _, id := range order {
+				g := groups[id]
+				rng.Shuffle(len(g), func(a, b int) { g[a], g[b] = g[b], g[a] })
+				if len(g) > quota {
+					g = g[:quota]
+				}
+				sel = append(sel, g...)
+			}
+			paths = sel
+			seen := map[string]bool{}
+			for _, p := range paths {
+				for _, e := range p {
+					seen[e.From.ID+"|"+e.Action+"|"+e.To.ID] = true
+				}
+			}
+			covered = len(seen)
+		}
 		for _, p := range paths {
 			behaviours = append(behaviours, asStates(p))
 		}
-		ctx.Logf("%s: graph %d states %d edges, %d paths cover %d edges", j.name, len(res.Graph.Nodes), res.Graph.Edges, len(paths), covered)
-		if j.maxPaths == 0 && covered != res.Graph.Edges {
-			return fmt.Errorf("%s: path cover incomplete: %d of %d edges", j.name, covered, res.Graph.Edges)
-		}
+		ctx.Logf("%s: graph %d states %d edges, %d paths replayed covering %d edges", j.name, len(res.Graph.Nodes), res.Graph.Edges, len(paths), covered)
 		ctx.AddExtra("graph_edges_replayed", int64(covered))
+		ctx.AddExtra("graph_edges_total", int64(res.Graph.Edges))
 	case "sim":
 		for _, b := range res.Behaviours {
 			var ss []tla.State
